@@ -33,9 +33,9 @@
 //     well-known ones, '.'-separated or unseparated qualifiers, ga/final followed by a number; RPM
 //     pairs where only one side has a release; Packagist pairs with different numbers of numeric
 //     components (composer pads, version_compare does not) and unknown stability words; Alpine
-//     versions with other than two numeric components, leading zeros, letters, hashes, un-numbered
-//     suffixes, and pairs where only one side has -rN; CRAN "1.0" vs "1.0.0" (prefix with all-zero
-//     tail); NuGet/semver build metadata is ignored by the reference as by the specs;
+//     pairs with different numbers of numeric components, leading zeros, hashes, "_x" vs "_x0",
+//     and pairs where only one side has -rN; NuGet/semver build metadata is ignored by the reference
+//     as by the specs;
 //   - Maven: the order between the '-'-qualifier family (gen.go genMaven) and the '.'-qualifier family
 //     (genMavenDot), and '.sp' / '.<unknown qualifier>' altogether: Maven's own ComparableVersion has
 //     cycles there (1 < 1-sp < 1.0.alpha < 1; 0 < 0.sp < 0-a1 < 0), the implementation reproduces
@@ -740,7 +740,7 @@ func main() {
 		os.Exit(replay(f))
 	}
 	refSelfTest()
-	r := ev.Start("C07", "exploration", 3*time.Minute, 35*time.Minute)
+	r := ev.Start("C07", "exploration", 5*time.Minute, 40*time.Minute)
 	x := &ctx{r: r, col: newCollector()}
 	stats := map[string]any{}
 	names := 0
